@@ -17,6 +17,7 @@ func main() {
 	switch *prop {
 	case "C01":
 		rep = suiteParse("C01", *tier, *seed, *model, map[string]bool{"accept": true})
+		rep.Merge(suiteDeep("C01"))
 	case "C04":
 		rep = suiteWrite(*tier, *seed, *model)
 	case "C05":
@@ -61,13 +62,17 @@ func main() {
 		rep.Merge(suiteChannel(*tier, *seed))
 	case "C02":
 		rep = suiteParse("C02", *tier, *seed, *model, map[string]bool{"value": true})
+		rep.Merge(suiteNumConvGlobal())
 	case "C06":
 		rep = suiteParse("C06", *tier, *seed, *model, map[string]bool{"fault": true})
 		rep.Merge(suiteChunk("C06", "fault", *tier, *seed, *model))
 		rep.Merge(suiteFaultOther(*tier, *seed))
+		rep.Merge(suiteDeep("C06"))
 	case "C09":
 		rep = suiteParse("C09", *tier, *seed, *model, map[string]bool{"position": true})
 		rep.Merge(suiteChunk("C09", "position", *tier, *seed, *model))
+		rep.Merge(suiteDeep("C09"))
+		rep.Merge(suiteUnmarshalPos(*seed))
 	case "C13c":
 		rep = suiteMutateCollections(*tier, *seed)
 	case "C11r":
